@@ -122,7 +122,257 @@ def _full_view(repo):
                 s_.value.value is True and i_ + 1 < len(n.body) and \
                 isinstance(n.body[i_ + 1], ast.Break):
           roles[s_.targets[0].id] = 'satisfy'
+  # similar / dissimilar pairs: pairs[<labels> == +1], pairs[<labels> == -1]
+  def sel_of(e):
+    if isinstance(e, ast.Subscript) and isinstance(e.slice, ast.Compare) and \
+            len(e.slice.ops) == 1 and isinstance(e.slice.ops[0], ast.Eq) and \
+            ast.unparse(e.value) == f0.params()[1]:
+      c_ = e.slice.comparators[0]
+      v_ = c_.value if isinstance(c_, ast.Constant) else (
+          -c_.operand.value if isinstance(c_, ast.UnaryOp) and
+          isinstance(c_.op, ast.USub) and
+          isinstance(c_.operand, ast.Constant) else None)
+      return v_
+    return None
+  for n in ast.walk(f0.node):
+    for (t_, v_) in astutil.assign_pairs(n):
+      sv = sel_of(v_)
+      if sv == 1:
+        roles[t_] = 'pos_pairs'
+      elif sv == -1:
+        roles[t_] = 'neg_pairs'
+  pp = next((k for k, v in roles.items() if v == 'pos_pairs'), None)
+  An2 = next((k for k, v in roles.items() if v == 'A'), None)
+  old2 = next((k for k, v in roles.items() if v == 'A_old'), None)
+  for n in ast.walk(f0.node):
+    if isinstance(n, ast.Assign) and isinstance(n.targets[0], ast.Name):
+      v_ = n.value
+      t_ = n.targets[0].id
+      if isinstance(v_, ast.BinOp) and isinstance(v_.op, ast.Sub) and pp and \
+              all(isinstance(x, ast.Subscript) and ast.unparse(x.value) == pp
+                  for x in (v_.left, v_.right)):
+        roles[t_] = 'pos_diff'
+      if isinstance(v_, ast.Call) and ast.unparse(v_.func) == 'self._fD' and \
+              len(v_.args) == 2:
+        a1 = ast.unparse(v_.args[1])
+        if a1 == An2:
+          roles[t_] = 'obj'
+        elif a1 == old2:
+          roles[t_] = 'obj_previous'
+      if isinstance(v_, ast.Call) and \
+              ast.unparse(v_.func) == 'self._grad_projection':
+        roles[t_] = 'M'
+  Mn = next((k for k, v in roles.items() if v == 'M'), None)
+  for n in ast.walk(f0.node):
+    if isinstance(n, ast.AugAssign) and ast.unparse(n.target) == An2 and \
+            isinstance(n.value, ast.BinOp) and \
+            isinstance(n.value.op, ast.Mult):
+      for side in (n.value.left, n.value.right):
+        if isinstance(side, ast.Name) and side.id != Mn:
+          roles[side.id] = 'alpha'
   return f0, astutil.role_view(f0, roles), roles
+
+
+def rule_scheme(repo, rep):
+  R = 'R-FORM:mmc-projected-gradient-scheme'
+  rep.rule(R, 'the budget vector w is the sum of outer products of the '
+           'similar-pair differences (pairs with label +1); the PSD '
+           'projection decomposes the symmetrisation (A + A^T)/2 of the '
+           'current matrix; an iterate becomes the kept one only when it is '
+           'feasible and the dissimilar-pair objective fD(pairs with label '
+           '-1, .) improved on the kept one (first cycle aside); the step is '
+           'A += alpha M (alpha > 0) along M = projection of the gradient of '
+           'fD orthogonal to the gradient of fS, the fallback A_old + alpha M')
+  f0, f, roles_ = _full_view(repo)
+  if f is None:
+    rep.unknown(R, 'mmc._BaseMMC._fit_full', site(f0), 'roles not resolved')
+    return
+  key = 'mmc._BaseMMC._fit_full:'
+  got = set(roles_.values())
+  miss = [r_ for r_ in ('pos_pairs', 'neg_pairs', 'pos_diff', 'M', 'alpha')
+          if r_ not in got]
+  if miss:
+    # a selection with the wrong label is a known-different form
+    sel = [ast.unparse(n.value) for n in ast.walk(f0.node)
+           if isinstance(n, ast.Assign) and
+           ('[y ==' in ast.unparse(n.value) or '[y !=' in
+            ast.unparse(n.value))]
+    if ('pos_pairs' in miss or 'neg_pairs' in miss) and sel:
+      rep.refuted(R, key + 'pair-selection', site(f0), 'similar / dissimilar '
+                  'pairs are selected by %s, documented pairs[y == 1] and '
+                  'pairs[y == -1]' % sel)
+    else:
+      rep.unknown(R, key + 'roles', site(f0), 'roles %s not identified'
+                  % miss)
+    return
+  rep.derived(R, key + 'pair-selection', site(f0))
+  # w
+  from ..ncalg import NC, NCEval
+  from ..ratfunc import Rat as _Rat
+
+  def canon_of(e):
+    d = repo.dotted(f.module, e)
+    return canon(d) if d else None
+  # pos_diff: a difference of the two slots of the similar pairs
+  pd = [v for (n, v) in guards.assignments(f.node, 'pos_diff')
+        if v is not None]
+  def slot(x):
+    sl = x.slice.elts if isinstance(x.slice, ast.Tuple) else [x.slice]
+    if len(sl) in (2, 3) and all(
+            isinstance(p_, ast.Slice) and p_.lower is None and
+            p_.upper is None and p_.step is None
+            for i_, p_ in enumerate(sl) if i_ != 1) and \
+            isinstance(sl[1], ast.Constant):
+      return sl[1].value
+    return None
+  slots = sorted(str(slot(x)) for x in (pd[0].left, pd[0].right)) \
+      if pd and isinstance(pd[0], ast.BinOp) else []
+  ok_d = slots == ['0', '1'] and isinstance(pd[0].op, ast.Sub)
+  rep.add(R, key + 'pos_diff', 'derived' if ok_d else 'unknown', site(f),
+          '' if ok_d else 'similar-pair differences %s not recognised'
+          % (ast.unparse(pd[0]) if pd else None))
+  wd = [v for (n, v) in guards.assignments(f.node, 'w') if v is not None]
+  w_ok = None
+  if wd:
+    e = wd[0]
+    if isinstance(e, ast.Call) and isinstance(e.func, ast.Attribute) and \
+            e.func.attr in ('ravel', 'flatten') and not e.args:
+      inner = e.func.value
+      D = NC.atom('D')
+      ev = NCEval({'pos_diff': D}, {}, canon_of)
+      v = ev.ev(inner)
+      if v is None and isinstance(inner, ast.Call) and \
+              canon_of(inner.func) == canon('numpy.einsum') and \
+              len(inner.args) == 3 and \
+              isinstance(inner.args[0], ast.Constant):
+        spec = str(inner.args[0].value).replace(' ', '')
+        a1, a2 = ast.unparse(inner.args[1]), ast.unparse(inner.args[2])
+        if a1 == a2 == 'pos_diff':
+          ins, out = spec.split('->') if '->' in spec else (spec, '')
+          x, y = ins.split(',')
+          if len(x) == 2 and len(y) == 2 and x[0] == y[0] and \
+                  x[1] != y[1] and sorted(out) == sorted(x[1] + y[1]):
+            v = D.T().mul(D)
+          elif len(set(x)) < 2 or len(set(y)) < 2:
+            w_ok = False
+      if v is not None:
+        w_ok = v == D.T().mul(D)
+  if w_ok is None:
+    rep.unknown(R, key + 'w', site(f), 'budget vector %s not recognised'
+                % (ast.unparse(wd[0]) if wd else None))
+  else:
+    rep.add(R, key + 'w', 'derived' if w_ok else 'refuted', site(f),
+            '' if w_ok else 'budget vector is %s, documented the flattened '
+            'sum of outer products D^T D' % ast.unparse(wd[0]))
+  # eigh of the symmetrisation
+  for n in ast.walk(f.node):
+    if isinstance(n, ast.Assign) and isinstance(n.value, ast.Call) and \
+            (repo.dotted(f.module, n.value.func) or '').endswith(
+                'linalg.eigh') and n.value.args:
+      Am = NC.atom('A')
+      v = NCEval({'A': Am}, {}, canon_of).ev(n.value.args[0])
+      half = _Rat.const(1) / _Rat.const(2)
+      sym = Am.add(Am.T()).scale(half)
+      if v is None:
+        rep.unknown(R, key + 'eigh-argument', site(f, n), 'argument %s of '
+                    'eigh not derivable' % ast.unparse(n.value.args[0]))
+      elif v == sym or v == Am:
+        rep.derived(R, key + 'eigh-argument', site(f, n))
+      else:
+        rep.refuted(R, key + 'eigh-argument', site(f, n), 'eigh decomposes '
+                    '%r, documented the symmetrisation %r of the current '
+                    'matrix' % (v, sym))
+  # acceptance: improvement of the dissimilar-pair objective
+  for n in ast.walk(f.node):
+    if isinstance(n, ast.Assign) and ast.unparse(n.targets[0]) == 'A_old[:]':
+      ifs = [p_ for (p_, ch) in astutil.enclosing(f.node, n, ast.If)
+             if ch in p_.body]
+      tests = [ast.unparse(p_.test)
+               .replace('self._fD(neg_pairs, A_old)', 'obj_previous')
+               .replace('self._fD(neg_pairs, A)', 'obj') for p_ in ifs]
+      good = ('satisfy and (obj_previous < obj or cycle == 0)',
+              'satisfy and (cycle == 0 or obj_previous < obj)',
+              'satisfy and (obj_previous <= obj or cycle == 0)',
+              'satisfy and (cycle == 0 or obj_previous <= obj)')
+      cyc = [lp.target.id for lp in ast.walk(f.node)
+             if isinstance(lp, ast.For) and isinstance(lp.target, ast.Name)
+             and n in list(ast.walk(lp))]
+      tests_c = [t.replace('%s == 0' % c_, 'cycle == 0') for t in tests
+                 for c_ in (cyc[:1] or ['cycle'])]
+      if any(t in good for t in tests_c):
+        rep.derived(R, key + 'improvement', site(f, n))
+      elif any(('obj < obj_previous' in t or 'obj <= obj_previous' in t)
+               for t in tests_c):
+        rep.refuted(R, key + 'improvement', site(f, n), 'the iterate is kept '
+                    'when the dissimilar-pair objective got WORSE (%s)'
+                    % tests)
+      elif any('obj' in t for t in tests_c):
+        rep.unknown(R, key + 'improvement', site(f, n), 'acceptance test %s '
+                    'not in the table' % tests)
+      else:
+        rep.refuted(R, key + 'improvement', site(f, n), 'the iterate is kept '
+                    'without comparing the dissimilar-pair objective with '
+                    'the kept one (%s)' % tests)
+  # objective evaluations use the dissimilar pairs
+  for nm, arg2 in (('obj', 'A'), ('obj_previous', 'A_old')):
+    dv = [v for (n, v) in guards.assignments(f.node, nm) if v is not None]
+    if not dv:
+      continue        # written in place in the acceptance test (see above)
+    ok = dv and ast.unparse(dv[0]) == 'self._fD(neg_pairs, %s)' % arg2
+    rep.add(R, key + nm, 'derived' if ok else 'refuted', site(f),
+            '' if ok else '%s is %s, documented fD(dissimilar pairs, %s)'
+            % (nm, ast.unparse(dv[0]) if dv else None, arg2))
+  # ascent step and fallback
+  ups = [n for n in ast.walk(f.node) if isinstance(n, ast.AugAssign) and
+         ast.unparse(n.target) == 'A']
+  for n in ups:
+    ok = isinstance(n.op, ast.Add) and ast.unparse(n.value) in (
+        'alpha * M', 'M * alpha')
+    rep.add(R, key + 'ascent-step', 'derived' if ok else 'refuted',
+            site(f, n), '' if ok else 'the step is %s, documented '
+            'A += alpha * M' % ast.unparse(n))
+  fb = [n for n in ast.walk(f.node) if isinstance(n, ast.Assign) and
+        ast.unparse(n.targets[0]) == 'A[:]' and
+        'A_old' in ast.unparse(n.value)]
+  for n in fb:
+    ok = ast.unparse(n.value) in ('A_old + alpha * M', 'alpha * M + A_old',
+                                  'A_old + M * alpha')
+    rep.add(R, key + 'fallback-step', 'derived' if ok else 'refuted',
+            site(f, n), '' if ok else 'the fallback is %s, documented '
+            'A_old + alpha * M' % ast.unparse(n.value))
+  # step sizes stay positive: alpha starts positive and is only scaled by
+  # positive constants
+  al = [n for n in ast.walk(f.node)
+        if isinstance(n, (ast.Assign, ast.AugAssign)) and
+        ast.unparse(n.targets[0] if isinstance(n, ast.Assign)
+                    else n.target) == 'alpha']
+  okp = bool(al)
+  for n in al:
+    v = n.value
+    pos = isinstance(v, ast.Constant) and isinstance(v.value, (int, float)) \
+        and v.value > 0
+    if isinstance(n, ast.AugAssign):
+      pos = pos and isinstance(n.op, (ast.Mult, ast.Div))
+    okp = okp and pos
+  rep.add(R, key + 'alpha-positive', 'derived' if okp else 'unknown',
+          site(f), '' if okp else 'step size not a positive constant scaled '
+          'by positive constants')
+  # direction: inside the loop M projects the gradient of fD (dissimilar
+  # pairs) orthogonally to the gradient of fS (similar pairs)
+  loops = [n for n in ast.walk(f.node) if isinstance(n, ast.For)]
+  inl = [n for lp in loops for n in ast.walk(lp)
+         if isinstance(n, ast.Assign) and ast.unparse(n.targets[0]) == 'M']
+  for n in inl:
+    un = astutil.unfold(n.value, astutil.parents(f.node).get(n).body, n)
+    txt = ast.unparse(un)
+    ok = txt == 'self._grad_projection(self._fD1(neg_pairs, A), ' \
+        'self._fS1(pos_pairs, A))'
+    bad = txt == 'self._grad_projection(self._fS1(pos_pairs, A), ' \
+        'self._fD1(neg_pairs, A))'
+    rep.add(R, key + 'direction', 'derived' if ok else 'refuted' if bad
+            else 'unknown', site(f, n), '' if ok else 'direction is %s, '
+            'documented _grad_projection(fD1(dissimilar), fS1(similar))'
+            % txt)
 
 
 def rule_full(repo, rep):
@@ -554,6 +804,7 @@ def rule_diag(repo, rep):
 
 def check(repo, rep, tier):
   rule_full(repo, rep)
+  rule_scheme(repo, rep)
   rule_projection_formula(repo, rep)
   rule_init_flow(repo, rep)
   rule_diag(repo, rep)
